@@ -40,13 +40,18 @@ LifetimeConfigs ==
     \cup UNION {{[op |-> "lifetime_prm", cls |-> "FixedLifetime", via |-> "ctor", ds |-> ds, shape |-> <<>>, tl |-> "t", b |-> pd] :
                pd \in OrderedSubsetsUpTo(BaseLetters, 2)} : ds \in {d \in StockDims : d[1] = "t"}}
 
-Configs == ArrayConfigs \cup StockConfigs \cup LifetimeConfigs
+ForeignConfigs ==
+    UNION {{[op |-> "assign_foreign", cls |-> "FlodymArray", via |-> v, ds |-> ds, shape |-> <<>>, tl |-> l, b |-> <<>>] :
+               v \in {"ellipsis", "empty_dict", "arith"}, l \in Range(ds)} : ds \in {d \in Dims : d # <<>>}}
+
+Configs == ArrayConfigs \cup StockConfigs \cup LifetimeConfigs \cup ForeignConfigs
 
 Accept(c) ==
     CASE c.op = "array_ctor"   -> ArrayCtorOK(c.via, c.ds, c.shape)
       [] c.op = "stock_ctor"   -> StockCtorOK(c.ds, c.tl, c.via # "none", c.b)
       [] c.op = "dsm_lifetime" -> DsmLifetimeOK(c.ds, c.tl, c.b)
       [] c.op = "lifetime_prm" -> LifetimePrmOK(c.ds, c.b)
+      [] c.op = "assign_foreign" -> ForeignAssignOK(c.ds, c.tl)
 
 Init == cfg \in Configs /\ res = "pending" /\ phase = "cfg"
 Step == phase = "cfg" /\ phase' = "done" /\ res' = (IF Accept(cfg) THEN "ok" ELSE "error") /\ UNCHANGED cfg
